@@ -503,7 +503,7 @@ func (s *sched) act(a action) {
 }
 
 func (s *sched) launch(p *pstate) {
-	plan := s.rig.plan(p.key.Op, p.spec.Alt, s.c.OpType)
+	plan := s.rig.plan(p.key.Op, p.spec.Alt, s.c.OpType, s.c.DataSources)
 	go func() {
 		gid := curGID()
 		s.mu.Lock()
@@ -528,7 +528,7 @@ func (s *sched) launch(p *pstate) {
 			s.mu.Unlock()
 			s.notify()
 		}()
-		rc := s.rig.request(p.ctx, s.c.Layer, s.c.OpType, p.key, p.spec.Alt, p.w)
+		rc := s.rig.request(p.ctx, s.c.Layer, s.c.OpType, s.c.HdrMode, p.key, p.spec.Alt, p.w)
 		info, err := s.rig.resolver.ArenaResolveGraphQLResponse(rc, plan, p.wr)
 		p.out.Returned = true
 		p.out.err = err
@@ -565,7 +565,7 @@ func (s *sched) poison() {
 	release := make(chan struct{})
 	done := make(chan string, n)
 	k := s.parts[0].key
-	plan := s.rig.plan(k.Op, false, s.c.OpType)
+	plan := s.rig.plan(k.Op, false, s.c.OpType, s.c.DataSources)
 	for i := 0; i < n; i++ {
 		go func() {
 			msg := ""
@@ -575,7 +575,7 @@ func (s *sched) poison() {
 				}
 				done <- msg
 			}()
-			rc := s.rig.request(context.Background(), s.c.Layer, s.c.OpType, k, false, &who{pid: -2, poison: true})
+			rc := s.rig.request(context.Background(), s.c.Layer, s.c.OpType, s.c.HdrMode, k, false, &who{pid: -2, poison: true})
 			w := &blockingWriter{arrived: arrived, release: release}
 			if _, err := s.rig.resolver.ArenaResolveGraphQLResponse(rc, plan, w); err != nil {
 				msg = "poison request failed: " + err.Error()
